@@ -20,6 +20,9 @@ EXPLANATION = (
     "induction B never becomes negative; (R2) visit-once -- in TSP, CVRP and Knapsack the guard contains not visited[a] "
     "and the guarded update sets exactly visited[a] to True (else-branch identity), so no city / customer / item is "
     "taken twice; (R3) the literal Sudoku BOX_IDX table is a partition of 0..80 whose rows are the nine 3x3 boxes; (R4) "
+    "(R5) in the CO environments whose step trusts the stored mask (BinPack, FlatPack, JobShop, Sudoku, GraphColoring) the mask "
+    "handed to the agent is computed from the returned state, is the one the next step consults, has one entry per action and (FlatPack) is "
+    "laid out in the order of the coordinates it was computed over -- a mask that is stale or mis-laid lets a mask-respecting action overlap / repeat; (R4) "
     "GraphColoring: the next mask is computed from the colours after the current assignment (the stale-mask rule of "
     "C04.R1), which is what 'adjacent nodes never share a colour under mask-respecting play' rests on. Not decided "
     "(runtime geometry / scheduling): BinPack EMS bookkeeping, FlatPack overlap, JobShop machine and job exclusivity, "
@@ -123,7 +126,10 @@ def check(tier: str) -> Result:
     u = at_set(nv)
     ok = u is not None and u[0] is sf.old["colors"] and u[1] is sf.old["current_node_index"] and u[2] is ea.action
     res.add("C06.R4", site, fn, "the chosen colour is written at the current node only", ok, txt(nv, 4, 120))
-    res.analysed = {"environments": ["Knapsack", "CVRP", "TSP", "Sudoku", "GraphColoring"], "obligations": len(res.obligations)}
+    from .common import borrow
+    TRUSTS_MASK = ["BinPack", "FlatPack", "JobShop", "Sudoku", "GraphColoring"]   # CO environments whose step consults the stored mask
+    n_b = borrow(res, "c04", {"C04.R1": "C06.R5", "C04.R3a": "C06.R5", "C04.R7": "C06.R5", "C04.R6": "C06.R5"}, envs=TRUSTS_MASK)
+    res.analysed = {"environments": ["Knapsack", "CVRP", "TSP", "Sudoku", "GraphColoring"], "mask_soundness_obligations": n_b, "obligations": len(res.obligations)}
     res.assumptions = ["lax.cond semantics; the induction over steps uses C05.R2 (state untouched on invalid actions)",
                        "constraints of BinPack, FlatPack, JobShop, MultiCVRP, Connector, MMST are not decided (runtime geometry / scheduling)"]
     return res
